@@ -211,9 +211,18 @@ fn engine_crash_search(seed: u64, thorough: bool, failures: &mut Vec<serde_json:
         p.schedule = CommitSchedule::EveryK(3);
         let mut h = gen_history(&mut rng, &p);
         h = with_schedule(&h, p.schedule, &mut rng);
-        // crash sites: every Commit of the history, plus one Reorg appended after the last commit
+        // crash sites: the last Commits of the history, plus one Reorg appended at the end
         let mut sites: Vec<usize> = h.iter().enumerate().filter(|(_, o)| matches!(o, SOp::Commit)).map(|(i, _)| i).collect();
         if sites.len() > 3 { let keep = sites.len() - 3; sites.drain(..keep); }
+        {
+            // where does the history end? (a dry run tells the height)
+            let mut dry = Run::new();
+            if dry.run(&h) && !dry.tracker.desynced && dry.tracker.at_boundary() {
+                if let Some(top) = dry.tracker.height() {
+                    if top >= 3 { let back = 1 + rng.below(3.min(top)); h.push(SOp::Reorg(top - back)); sites.push(h.len() - 1); }
+                }
+            }
+        }
         for site in sites {
             // count the persistent writes of this commit with a dry run
             let mut dry = Run::new();
@@ -244,7 +253,10 @@ fn engine_crash_search(seed: u64, thorough: bool, failures: &mut Vec<serde_json:
                 let Some(height) = height else { continue };
                 if durable == 0 { continue; }
                 let c = durable - 1; // durable height
-                for n in [c, c.saturating_sub(1)] {
+                // a crashed reorg(T): targets are T itself (the same call again) and below
+                let targets: Vec<u64> = match &h[site] { SOp::Reorg(t) => vec![(*t).min(c)], _ => vec![c, c.saturating_sub(1)] };
+                if matches!(&h[site], SOp::Reorg(_)) { *dist.entry("engine_crash_in_reorg".into()).or_default() += 1; }
+                for n in targets {
                     if height > n + W { continue; }
                     // recovery: reorg to n on a copy of the crashed instance is destructive, so re-crash for the second target
                     let r = a.inst.rpc("brc20_reorg", json!([n]));
@@ -259,8 +271,8 @@ fn engine_crash_search(seed: u64, thorough: bool, failures: &mut Vec<serde_json:
                     let ob = crate::sim::observe(&mut fresh.inst, &u);
                     let d = diff_obs(&oa, &ob);
                     if r.is_err() || !d.is_empty() {
-                        failures.push(json!({"what": format!("c04: crash before persistent write #{} of {} writes of brc20_commitToDatabase, reopen, brc20_reorg({}) {}: {} queries differ from a fresh replay of blocks 0..={} (first: {})",
-                            k, total, n, if r.is_err() { "was refused or failed" } else { "accepted" }, d.len(), n, d.first().map(|x| x.0.clone()).unwrap_or_default()),
+                        failures.push(json!({"what": format!("c04: crash before persistent write #{} of {} writes of {}, reopen, brc20_reorg({}) {}: {} queries differ from a fresh replay of blocks 0..={} (first: {})",
+                            k, total, match &h[site] { SOp::Reorg(t) => format!("brc20_reorg({})", t), _ => "brc20_commitToDatabase".to_string() }, n, if r.is_err() { "was refused or failed" } else { "accepted" }, d.len(), n, d.first().map(|x| x.0.clone()).unwrap_or_default()),
                             "case": {"history": h[..=site].to_vec(), "crash_at_write": k, "recover_to": n, "first_difference": d.first().map(|x| json!({"query": x.0, "crashed_then_reorged": x.1, "fresh": x.2}))}}));
                     }
                     break; // the reorg changed the instance: one target per crash
